@@ -10,7 +10,7 @@ import random
 VAL = {"neg": -1, "zero": 0, "pos": 1, "none": None}
 COR = {"T": True, "F": False, "N": None}
 SCORE = {"none": None, "+10": "+10", "-5": "-5", "50%": "50%", "0.25": 0.25, "10": 10, "+20%": "+20%",
-         "-10%": "-10%", "1": 1, "-0.5": -0.5}
+         "-10%": "-10%", "1": 1, "-0.5": -0.5, "12.5%": "12.5%", "0.125": 0.125, "+37.5%": "+37.5%", "-12.5%": "-12.5%", "0.625": 0.625}
 
 
 FM = {"f1": {"k": "1", "j": "1"}, "f2": {"k": "2", "j": "1"}, "f3": {"k": "1", "j": "2"},
@@ -131,7 +131,7 @@ PRIOS = ["none", "none", "none", "high", "medium", "low", "highest", "lowest", "
          "positive", "instructions", "parser", "verifier", "analyzer", "instructor", "mistakes"]
 
 
-def random_feedback(rng):
+def random_feedback(rng, frac=False):
     f = {"cat": rng.choice(CATS), "prio": rng.choice(PRIOS), "trig": rng.random() < 0.7,
          "muted": rng.random() < 0.2, "kind": rng.choice(["Mistake", "Mistake", "Compliment", "Instructional", "Hint"]),
          "els": False, "label": rng.choice(["a", "b", "c"]), "flds": rng.choice(["f1", "f2", "f3"]),
@@ -142,7 +142,10 @@ def random_feedback(rng):
     r = rng.random()
     if r < 0.6:
         n = rng.randint(0, 40)
-        form = rng.choice(["+N", "-N", "N%", "+N%", "-N%", "int", "float", "negint"])
+        # a history either uses scores that are not whole percents (eighths: exactly representable, so the float sum
+        # is exact and the tie rule of the final rounding is well defined) together with integers, or none of them
+        form = rng.choice(["+N", "-N", "int", "negint", "eighth", "eighth%", "eighth", "eighth%"] if frac else
+                          ["+N", "-N", "N%", "+N%", "-N%", "int", "float", "negint"])
         if form == "+N":
             f["raw_score"], f["centi"] = "+%d" % n, n * 100
         elif form == "-N":
@@ -157,6 +160,13 @@ def random_feedback(rng):
             f["raw_score"], f["centi"] = n, n * 100
         elif form == "negint":
             f["raw_score"], f["centi"] = -n, -n * 100
+        elif form == "eighth":        # not a whole number of percent; exactly representable, so sums are exact
+            k = rng.choice([1, 3, 5, 7, 9])
+            f["raw_score"], f["centi"], f["milli"] = k / 8, 0, k * 125
+        elif form == "eighth%":
+            k = rng.choice([1, 3, 5, 7])
+            sign = rng.choice(["", "+", "-"])
+            f["raw_score"], f["centi"], f["milli"] = "%s%s%%" % (sign, k * 12.5), 0, (-1 if sign == "-" else 1) * k * 125
         else:
             q = rng.choice([0.25, 0.5, 0.75, 0.1, 0.05, 1.5])
             f["raw_score"], f["centi"] = q, int(round(q * 100))
@@ -183,10 +193,11 @@ def record_chunk(seeds, extra):
         objs = []
         ev = []
         errors = []
+        frac = rng.random() < 0.25
         for _ in range(rng.randint(1, 9)):
             r = rng.random()
             if r < 0.6 or not objs:
-                f = random_feedback(rng)
+                f = random_feedback(rng, frac)
                 objs.append(make_feedback(report, f, len(objs) + 1, style=rng.randint(0, 1)))
                 ev.append({"e": "add", "f": {k: v for k, v in f.items() if k != "raw_score"}})
             elif r < 0.8:
